@@ -44,7 +44,7 @@ def run(tier):
     N = 6 if tier == "quick" else 9
     # a cached expansion must be keyed by the point (its mu and kind) and the degree it was built for
     from .. import memo
-    memo.check_modules(chk, "C07.d-memo", ["hiten.algorithms.hamiltonian.pipeline", "hiten.algorithms.hamiltonian.hamiltonian", "hiten.algorithms.types.services.libration"],
+    memo.check_modules(chk, "C07.d-memo", ["hiten.algorithms.hamiltonian.pipeline", "hiten.algorithms.hamiltonian.hamiltonian", "hiten.algorithms.types.services.libration", "hiten.algorithms.types.services.hamiltonian"],
                        floor=2, what="hand-rolled caches on the Hamiltonian construction path")
     # the gamma that scales and centres the local frame is the equilibrium's distance ratio (C04.b quintic rule, re-filed)
     from . import c04
